@@ -350,7 +350,7 @@ theorem machine_running_upTo (cs : List LCmd) (hw : WFL cs) (K H : Nat) (hrp : R
 def demoForever : List LCmd := [.loopBegin 0, .base (.set .rgb 255 0 0 10), .base (.set .rgb 0 0 255 10), .loopEnd]
 
 theorem demoForever_wf : WFL demoForever := by
-  refine ⟨?_, by decide, ?_⟩
+  refine ⟨?_, by decide, ?_, fun t a h => by simp [demoForever] at h⟩
   · intro c hc
     simp only [demoForever, List.mem_cons, List.mem_nil_iff, or_false] at hc
     rcases hc with rfl | rfl | rfl | rfl <;> simp [LCmd.ok, Cmd.ok, Enc.fits]
@@ -393,7 +393,7 @@ theorem demoL_bytes : encodeL demoL = [12, 3, 4, 255, 0, 0, 10, 4, 0, 0, 255, 10
   decide
 
 theorem demoL_wf : WFL demoL := by
-  refine ⟨?_, by decide, by rw [demoL_bytes]; decide⟩
+  refine ⟨?_, by decide, by rw [demoL_bytes]; decide, fun t a h => by simp [demoL] at h⟩
   intro c hc
   simp only [demoL, List.mem_cons, List.mem_nil_iff, or_false] at hc
   rcases hc with rfl | rfl | rfl | rfl | rfl <;> simp [LCmd.ok, Cmd.ok, Enc.fits]
@@ -428,5 +428,45 @@ example (hist : List (Nat × Nat)) (f : Nat) (p r : Player)
   have e2 : (am demoL (4 + 1)).m.pyro = 0 := by decide
   rw [e1, e2] at h
   exact h
+
+
+/-! ### non-vacuity: a program with a jump -/
+
+/-- green 0.1 s once; then for ever: red 0.2 s, blue 0.2 s, JUMP back to the red command (byte offset 5) -/
+def demoJ : List LCmd :=
+  [.base (.set .rgb 0 255 0 5), .base (.set .rgb 255 0 0 10), .base (.set .rgb 0 0 255 10), .jump 1 5]
+
+theorem demoJ_bytes : encodeL demoJ = [4, 0, 255, 0, 5, 4, 255, 0, 0, 10, 4, 0, 0, 255, 10, 18, 5] := by
+  simp only [encodeL, demoJ, List.map, LCmd.bytes, Cmd.bytes, List.flatten, varint_small 10 (by decide), varint_small 5 (by decide)]
+  decide
+
+theorem demoJ_wf : WFL demoJ := by
+  refine ⟨?_, by decide, by rw [demoJ_bytes]; decide, ?_⟩
+  · intro c hc
+    simp only [demoJ, List.mem_cons, List.mem_nil_iff, or_false] at hc
+    rcases hc with rfl | rfl | rfl | rfl <;> simp [LCmd.ok, Cmd.ok, Enc.fits]
+  · intro t a h
+    simp only [demoJ, List.mem_cons, List.mem_nil_iff, or_false, reduceCtorEq, false_or, LCmd.jump.injEq] at h
+    obtain ⟨rfl, rfl⟩ := h
+    refine ⟨by decide, ?_⟩
+    show 5 = (encodeL (demoJ.take 1)).length
+    simp only [encodeL, demoJ, List.take, List.map, LCmd.bytes, Cmd.bytes, List.flatten, varint_small 5 (by decide)]
+    decide
+
+/-- the machine goes round: 1 + 3·10 steps pass 4 s -/
+theorem demoJ_runs : RunsPast demoJ 31 4000 := ⟨by decide, by unfold LiveM; decide, by decide, by decide⟩
+
+example : (am demoJ 4).idx = 1 ∧ (am demoJ 4).m.T = 500 ∧ (am demoJ 7).idx = 1 ∧ (am demoJ 7).m.T = 900 := by decide
+
+/-- whatever was asked before (below 4 s), at 1000 ms — third lap, red phase — the player shows red -/
+example (hist : List (Nat × Nat)) (hH : ∀ x ∈ hist, x.1 ≤ 4000) (f : Nat) (p r : Player)
+    (hp : seekAll (Player.fresh (encodeL demoJ)) hist = .ok p) (hr : p.seek 1000 f = .ok r) :
+    r.exec.color = (255, 0, 0) ∧ r.exec.ended = false := by
+  have h := machine_running_upTo demoJ demoJ_wf 31 4000 demoJ_runs hist hH 1000 f (by decide) p r hp hr 7
+    (by decide) (by decide) (by decide) (by decide)
+  have e1 : specM ((demoJ[(am demoJ 7).idx]'(demoJ_runs.live 7 (by decide))).asCmd) (am demoJ 7).m 1000
+      = (255, 0, 0) := by decide
+  rw [e1] at h
+  exact ⟨h.1, h.2.2⟩
 
 end Sb.C02
